@@ -30,6 +30,8 @@ pub const CHECKS: &[CheckDef] = &[
     CheckDef { id: "C11", quick_runs: 2500, thorough_runs: 300_000, level: "exploration", title: "loom::sync::Arc behaves like std::sync::Arc" },
     CheckDef { id: "C13", quick_runs: 700, thorough_runs: 40_000, level: "fault_enumeration", title: "deterministic and resumable exploration" },
     CheckDef { id: "C14", quick_runs: 5000, thorough_runs: 80_000, level: "exploration", title: "exploration terminates and never repeats" },
+    CheckDef { id: "C16", quick_runs: 500, thorough_runs: 20_000, level: "exploration", title: "iterations and models are isolated" },
+    CheckDef { id: "C19", quick_runs: 1000, thorough_runs: 40_000, level: "exploration", title: "exploration controls and limits" },
     CheckDef { id: "C15", quick_runs: 1500, thorough_runs: 60_000, level: "exploration", title: "preemption bound is sound and monotone" },
 ];
 
@@ -98,6 +100,31 @@ pub fn generate(check: &str, tier: &str, seed: u64, run: u64) -> Case {
                 5 => gen_race(&mut rng),
                 _ => {
                     let pr = sync_profile(&mut rng, "");
+                    gen_sync(&mut rng, &pr)
+                }
+            }
+        }
+        "C16" | "C19" => {
+            config.iter_cap = 3000;
+            // C19 compares result sets with the unrestricted run (see the note at C15)
+            let plain = check == "C19";
+            match rng.below(5) {
+                0 | 1 => gen_litmus_any(&mut rng, false),
+                2 => {
+                    let mut pr = sync_profile(&mut rng, "wait");
+                    if plain {
+                        pr.try_ops = false;
+                        pr.yields = false;
+                    }
+                    gen_sync(&mut rng, &pr)
+                }
+                3 if check == "C16" => gen_arc(&mut rng, false),
+                _ => {
+                    let mut pr = sync_profile(&mut rng, "");
+                    if plain {
+                        pr.try_ops = false;
+                        pr.yields = false;
+                    }
                     gen_sync(&mut rng, &pr)
                 }
             }
@@ -180,6 +207,14 @@ pub fn judge(check: &str, tier: &str, case: &Case, seed: u64, run: u64) -> CaseR
         let r = crate::meta::run_c13_case(&case.program, &case.config, &mut rng, if thorough { 200 } else { 60 }, thorough);
         crate::meta::cleanup_scratch();
         return r;
+    }
+    if check == "C16" {
+        let r = crate::meta::run_c16_case(&case.program, &case.config, &mut rng);
+        crate::meta::cleanup_scratch();
+        return r;
+    }
+    if check == "C19" {
+        return crate::meta::run_c19_case(&case.program, &case.config, &mut rng);
     }
     if check == "C15" {
         return crate::meta::run_c15_case(&case.program, &case.config);
